@@ -88,7 +88,8 @@ func NewFSWorld(cfg FSCfg, root string, c15 bool) *FSWorld {
 		// outside the sink's name space: the file is a bystander that keeps its content
 		w.files = append(w.files, &fsFile{path: filepath.Join(w.Sub, fsBase), content: pre, external: w.rotateEnabled() && !cfg.TSOnly})
 		w.acked = append(w.acked, pre)
-		for _, b := range []string{"other.log", "audit.txt", "xaudit-1.log"} {
+		// (the last two share the "<base>-" prefix but not the extension: still not the sink's files)
+		for _, b := range []string{"other.log", "audit.txt", "xaudit-1.log", "audit-0-archive.tar.gz", "audit-9999999999999999999.log.bak"} {
 			os.WriteFile(filepath.Join(w.Sub, b), []byte("bystander"), 0o644)
 			w.bystanders = append(w.bystanders, filepath.Join(w.Sub, b))
 		}
